@@ -372,7 +372,7 @@ func visitInstr(fr *frame, instr ssa.Instruction) continuation {
 		m := fr.get(instr.Map)
 		key := fr.get(instr.Key)
 		v := fr.get(instr.Value)
-		key = fr.i.mapKey(key)
+		key = fr.i.mapKeyIn(m, key)
 		switch m := m.(type) {
 		case map[value]value:
 			m[key] = v
@@ -564,7 +564,10 @@ func runFrame(fr *frame) {
 		fr.panicking = true
 		fr.panic = recover()
 		if debugStacks && fr.i.panicStack == "" {
-			if _, isRT := fr.panic.(runtime.Error); isRT {
+			_, isRT := fr.panic.(runtime.Error)
+			_, isStr := fr.panic.(string)
+			_, isEng := fr.panic.(engineError)
+			if isRT || isStr || isEng {
 				buf := make([]byte, 6000)
 				n := runtime.Stack(buf, false)
 				chain := ""
